@@ -87,6 +87,7 @@ class MoreScenario(Scenario):
         self.profile = "lease"          # lease operations of the base class then use both kinds of storage index
         self.twin = twin
         self.readonly = rng.random() < 0.12
+        self.readonly0 = self.readonly
         self.reserved = rng.choice([0, 0, 7, 1000])
         self.dir = tempfile.mkdtemp(prefix="srvm", dir=workdir)
         self.ss = StorageServer(self.dir, b"\x00" * 20, reserved_space=self.reserved,
@@ -186,6 +187,17 @@ class MoreScenario(Scenario):
                "appver": isinstance(v.get(b"application-version"), bytes) and len(v.get(b"application-version")) > 0}
         self.events.append({"ev": "Version", "res": res, "free": free_before, "obsall": self.obsall(), "inprog": self.inprogress()})
 
+    def op_reconfigure(self):
+        """The operator stops the node and starts it again with the other readonly_storage setting."""
+        self.ss.stopService()             # aborts the uploads in progress
+        self.readonly = not self.readonly
+        self.ss = StorageServer(self.dir, b"\x00" * 20, reserved_space=self.reserved,
+                                readonly_storage=self.readonly, clock=vr)
+        self.fss = FoolscapStorageServer(self.ss)
+        reps, _ = self.reports()
+        self.events.append({"ev": "Reconfigure", "readonly": self.readonly, "obsall": self.obsall(), "inprog": self.inprogress(),
+                            "reports": [dict(x, reason=x["reason"].split("q")[0] + "q") for x in reps]})
+
     def op_setfree2(self):
         self.disk.capacity = self.reserved + self.pick_space()
         self.events.append({"ev": "SetFree", "capacity": self.disk.capacity})
@@ -194,7 +206,7 @@ class MoreScenario(Scenario):
         table = [(self.op_allocate, 14), (self.op_write, 10), (self.op_close, 12), (self.op_abort, 3),
                  (self.op_advance, 3), (self.op_disconnect, 2), (self.op_setfree2, 8),
                  (self.op_rtw, 8), (self.op_addlease, 2), (self.op_getbuckets, 1),
-                 (self.op_advise, 26), (self.op_version, 11)]
+                 (self.op_advise, 26), (self.op_version, 11), (self.op_reconfigure, 2)]
         ops = [o for o, w in table for _ in range(w)]
         guard = 0
         while len(self.events) < self.nevents and guard < self.nevents * 20:
@@ -207,7 +219,7 @@ class MoreScenario(Scenario):
                 self.events.append({"ev": "Crash", "op": getattr(op, "__name__", "op"), "exc": type(e).__name__,
                                     "family": "MORE", "tb": traceback.format_exc()[-800:]})
                 break
-        return {"consts": {"sisI": self.sisI, "sisM": self.sisM, "shnums": SHNUMS, "readonly": self.readonly,
+        return {"consts": {"sisI": self.sisI, "sisM": self.sisM, "shnums": SHNUMS, "readonly": self.readonly0,
                            "capacity0": 0, "profile": "more"},
                 "events": self.events}
 
@@ -266,6 +278,9 @@ class CrawlScenario:
                 self.si[10 * p + k] = s
         self.babs = {si_b2a(s).decode("ascii"): b for b, s in self.si.items()}
         self.min_cycle = {"bc": rng.choice([400, 900, 3600]), "lc": rng.choice([500, 1100, 43200])}
+        if long_:
+            # many lease-checker cycles (the history keeps the last 10): it must come round at least as often
+            self.min_cycle = {"bc": rng.choice([900, 3600]), "lc": rng.choice([400, 500])}
 
     # ---------------- the server and its crawlers ----------------
     def crawlers(self):
@@ -356,6 +371,15 @@ class CrawlScenario:
                          for cy, h in sorted(st["history"].items(), key=lambda kv: int(kv[0]))]
         return o
 
+    def listed_not_visited(self):
+        """buckets the lease checker has in its listing of the prefix it stopped in (same prefix as its
+        last-complete-bucket, later in the order) but has not visited yet"""
+        try:
+            lcb = self.babs.get(self.ss.lease_checker.get_state().get("last-complete-bucket"))
+        except Exception:
+            lcb = None
+        return [y for y in self.real_disk() if lcb is not None and y // 10 == lcb // 10 and y > lcb]
+
     def real_disk(self):
         return sorted(b for b, s in self.si.items() if os.path.isdir(os.path.join(self.ss.sharedir, storage_index_to_dir(s))))
 
@@ -430,6 +454,12 @@ class CrawlScenario:
                             self.log({"ev": "Remove", "b": b})
                     continue
                 pslice = 0.86 if self.long else 0.62
+                later = self.listed_not_visited()
+                if later and not self.long and r.random() < 0.3:
+                    b = r.choice(later)
+                    shutil.rmtree(os.path.join(self.ss.sharedir, storage_index_to_dir(self.si[b])))
+                    self.log({"ev": "Remove", "b": b})
+                    continue
                 if x < pslice:
                     if not self.do_slice():
                         # no crawler has a timer left (both died): only a restart helps
@@ -445,6 +475,9 @@ class CrawlScenario:
                     present = self.real_disk()
                     if present:
                         b = r.choice(present)
+                        later = self.listed_not_visited()
+                        if later and r.random() < 0.5:
+                            b = r.choice(later)
                         shutil.rmtree(os.path.join(self.ss.sharedir, storage_index_to_dir(self.si[b])))
                         self.log({"ev": "Remove", "b": b})
                 elif x < pslice + 0.29 or self.long:
